@@ -104,6 +104,9 @@ def ErrCtor.isPhaseConflict : ErrCtor → Bool
     carries no resource. Go's `&&` short-circuits, so the nil is only dereferenced
     when the qualifier is non-empty. -/
 def Err.isConflictQ (e : Err) (qns qtyp : String) : Option Bool :=
+  -- (`Gen.Store.conflictChecksBothQualifiers`: the body of `state.IsConflictError` is the one transcribed here;
+  -- any other body is outside the model)
+  if !Gen.Store.conflictChecksBothQualifiers then none else
   if !e.ctor.isConflict then some false else
   if qns ≠ "" then
     match e.res with
